@@ -57,6 +57,9 @@ func c05Vars() map[string]mj.Recipe {
 		"many":  {T: "map[string]any", Keys: []string{"t", "f"}, Elems: []mj.Recipe{mj.RStr("yes"), mj.RBool(false)}},
 		"ch":    {T: "chan int", Is: []int64{1, 0, 2}},
 		"chs":   {T: "chan string", Ss: []string{"u", ""}},
+		"rch":   {T: "<-chan int", Is: []int64{6, 0}},
+		"long":  {T: "iota", I: 259},
+		"longa": {T: "iota-array"},
 		"rg":    {T: "ranger", Ss: []string{"r0", "r1"}},
 		"rp":    {T: "ranger-plain", Ss: []string{"s0", "", "s2"}},
 		"stk":   {T: "stack-ranger", Ss: []string{"bottom", "middle", "top"}},
@@ -103,6 +106,7 @@ var c05Subjects = []c05Subject{
 	{"nilxs", true, 0, false, false, false}, {"nilm", true, 0, false, false, false},
 	{"n_int", false, 0, false, true, false}, {"n_str", false, 0, false, true, false}, {"n_nil", false, 0, false, true, false}, {"n_ptr", false, 0, false, true, false},
 	{"ints", true, 3, false, false, false},
+	{"rch", false, 2, false, false, true},
 }
 
 var c05CondVars = []string{"bt", "bf", "i0", "i1", "i8", "u0", "u3", "f0", "f1", "f32", "s0", "s1", "nl", "np", "pu", "us", "nm", "em", "ns", "es", "xs", "e_xs"}
@@ -301,6 +305,27 @@ func (g *c05Gen) stmts(depth int, scope []string) []*mj.Node {
 	for k := g.n(0, 2, "nstmts"); k > 0; k-- {
 		switch g.n(0, 3, "stmt") {
 		case 0:
+			if !g.inMulti && g.n(0, 9, "longCollection") == 0 {
+				// positions beyond the first few hundred of a long slice / array: index and element still belong together
+				subj := []string{"long", "longa"}[g.n(0, 1, "longSubject")]
+				id := g.nextTag("")
+				kn, vn := "k"+id, "v"+id
+				n := &mj.Node{K: "range", E: mj.Var(subj), Decl: g.n(0, 3, "longDecl") > 0, Names: []string{kn, vn}}
+				body := []*mj.Node{mj.Text("["), mj.Print(mj.Var(kn)), mj.Text("="), mj.Print(mj.Var(vn)), mj.Text("]")}
+				if g.n(0, 1, "longIndexOnly") == 0 {
+					n.Names = []string{kn}
+					body = []*mj.Node{mj.Text("["), mj.Print(mj.Var(kn)), mj.Text("]")}
+				}
+				n.Body = []*mj.Node{{K: "if", E: mj.Bin(">", mj.Var(kn), mj.Num(float64(g.n(250, 257, "longFrom")))), Body: body}}
+				if !n.Decl {
+					for _, nm := range n.Names {
+						out = append(out, mj.Let(nm, mj.Num(0)))
+					}
+				}
+				out = append(out, n)
+				g.labels["range-over-more-than-256-elements:"+subj] = true
+				continue
+			}
 			out = append(out, g.ifChain(depth, scope))
 		case 1, 2:
 			out = append(out, g.rangeStmt(depth, scope)...)
